@@ -13,9 +13,10 @@ from harness.props.c02 import coq_piece, coq_impl
 IMPORTS = "From Ford Require Import Base.Str Lex.Quote Lex.Reader Lex.ReaderSpec Lex.Fixed Corr.C02 Corr.C14."
 THEOREMS = ["C14_fixed_as_free", "C14_fixed_statements", "C14_std_equivalent", "C14_partial",
             "C14_refuted_literal_split"]
-# the one open finding: a character literal continued across lines
-REGIONS = {"literal_split": 1}
-KEYS = {1: "literal-continued-across-lines"}
+# the open findings: a character literal continued across lines; a comment line whose '!' stands in column 7 or
+# beyond between a line and its continuation line
+REGIONS = {"literal_split": 1, "indented_comment": 2}
+KEYS = {1: "literal-continued-across-lines", 2: "indented-comment-before-continuation"}
 RAW_POOL = ["      x = 1", "     1   + 2", "C comment", "c", "*", "! x", "  ! y", "#if A", "", "     ", "      ",
             "   10 continue", "10    y = 2", "      z = 'abc", "     &def'", "      a = 1 ! c", "     +  + b",
             "!$omp parallel", "c$omp do", "C$OMPX", "\t x = 1", "     0 w = 3", "12345 v = 4",
@@ -36,7 +37,10 @@ RAW_POOL = ["      x = 1", "     1   + 2", "C comment", "c", "*", "! x", "  ! y"
             "c$omp parallel do", "c$omp& private(x) ! c", "*$OMP  end", "C$OMP parallel do ! note",
             "!$omp+ if ('a!b' == s) ! c", "c$omp&",
             "c$omp parallel do                                                       SEQ00080",
-            "c$omp& shared(y)  ! c                                                   SEQ00090", "   10", "12345", "  end", "   10 "]
+            "c$omp& shared(y)  ! c                                                   SEQ00090", "   10", "12345", "  end", "   10 ",
+            # '!' in column 6 is a continuation mark; '!' in columns 2-5 or 7+ as first character is a comment line
+            "     !  + 2", "     !", "     ! ", "     !! doc?", "      ! note", "         ! far", "   ! x = 1", " !", "    !x",
+            "     '  + 3", "     c  + 4", "     ;  + 5"]
 
 
 def nlines(lines):
@@ -75,7 +79,7 @@ def run(chk):
                                                         "lines": lines, "impl": out}, False)
         # B. generated fixed-form statements through converter + reader; statements must equal the tokens'
         fcases = []
-        hits = {1: 0}
+        hits = {1: 0, 2: 0}
         shape_counts = {}
         # fixed regression inputs first (former witnesses of repaired defects): no region, judged like any other
         corpus = json.load(open(core.VERIF / "corpus" / "C14" / "regressions.json"))["cases"]
@@ -111,8 +115,10 @@ def run(chk):
                                   bool(code & 2) and not region)
                 elif code & 2:
                     chk.disagreements += 1
-                    if region and chk.known(KEYS[region], True):
-                        hits[region] += 1
+                    if region:
+                        for bit in KEYS:
+                            if region & bit and chk.known(KEYS[bit], True):
+                                hits[bit] += 1
                     else:
                         chk.violation("failing-input", {"what": "fixed-form statements differ from the free-form "
                                                         "equivalent", "length_limit": ll, "lines": lines,
@@ -122,6 +128,8 @@ def run(chk):
         # the known finding still present?  (by the standard the literal is ab, 59 blanks up to column 72, cd)
         r = run_reader(["      s = 'ab", "     &cd'"], fixed=True, workdir=work)
         chk.known("literal-continued-across-lines", r != ("ok", ["s = 'ab" + " " * 59 + "cd'"]))
+        r = run_reader(["      x = 1", "      ! note", "     &  + 2"], fixed=True, workdir=work)
+        chk.known("indented-comment-before-continuation", r != ("ok", ["x = 1 + 2"]))
     finally:
         shutil.rmtree(work, ignore_errors=True)
 
